@@ -97,7 +97,7 @@ func taskObs(msg string) string {
 
 func genC11(c *Ctx) error {
 	c.ShardSize = 400
-	c.Notes["rule"] = "entry points (createIndex, batchExecute, swapDone, multiSwapDone, executeTasks, the five robot functions, 14 other methods of all kinds incl. swap / multi-swap / admin-only ones, an unknown function) x caller identities (robot certificate, configuration holding its SKI or its hashed certificate or another identity's key, admin-OU certificate, ordinary certificate, RSA certificate, garbage, empty creator) x configurations (subsets of 6 disabled functions, both swap switches); the same functions as single signed tasks through executeTasks; Init with every identity; admin-only methods signed by admin / issuer / stranger through batches and tasks. Observed: gate verdict class and whether the ledger changed. Non-trivial: all (each is a distinct decision point)."
+	c.Notes["rule"] = "entry points (createIndex, batchExecute, swapDone, multiSwapDone, executeTasks, the five robot functions, 14 other methods of all kinds incl. swap / multi-swap / admin-only ones, an unknown function) x caller identities (robot certificate, configuration holding its SKI or its hashed certificate or another identity's key, admin-OU certificate, ordinary certificate, RSA certificate, garbage, empty creator) x configurations (subsets of 8 disabled functions - among them a swap and a multi-swap method, which may be disabled by name while their switch is off -, both swap switches); the same functions as single signed tasks through executeTasks; Init with every identity (also certificates with no organisational unit, an empty one, several); admin-only methods signed by admin / issuer / stranger through batches and tasks. Observed: gate verdict class and whether the ledger changed. Non-trivial: all (each is a distinct decision point)."
 	rng := c.Rng
 	w := NewWorld()
 	rsa := NewRSAIdentity("rsa", "client")
@@ -113,7 +113,7 @@ func genC11(c *Ctx) error {
 		hexKey string
 		n      int
 	}{{w.Robot.SKI, 1}, {w.Robot.Hashed, 11}, {w.Client.SKI, 3}}
-	disablePool := []string{"TxScript", "NBTxNbScript", "QueryQScript", "TxLockTokenBalance", "TxCreateCCTransferTo", "NBTxCommitCCTransferFrom"}
+	disablePool := []string{"TxScript", "NBTxNbScript", "QueryQScript", "TxLockTokenBalance", "TxCreateCCTransferTo", "NBTxCommitCCTransferFrom", "TxSwapBegin", "QueryMultiSwapGet"}
 	stranger := w.NewAccount(fpb.KeyType_ed25519)
 	if _, err := w.AddToken("TT", ChanOpts{}); err != nil {
 		return err
@@ -126,9 +126,12 @@ func genC11(c *Ctx) error {
 		// configuration
 		var dis []string
 		var disN []string
-		mask := rng.Intn(64)
+		mask := rng.Intn(256)
 		if ci < 16 {
 			mask = ci // exhaustive over the first four
+		}
+		if ci >= 16 && ci < 24 {
+			mask = (ci & 3) << 6 // the swap and the multi-swap method named in the list (or an empty list), every switch setting
 		}
 		for i, d := range disablePool {
 			if mask&(1<<i) != 0 {
@@ -145,6 +148,12 @@ func genC11(c *Ctx) error {
 			rk = robotKeys[0]
 		}
 		noSwaps, noMulti := rng.Intn(2) == 0, rng.Intn(2) == 0
+		if ci < 4 {
+			noSwaps, noMulti = ci&1 != 0, ci&2 != 0 // an empty or one-entry list with every switch setting
+		}
+		if ci >= 16 && ci < 24 {
+			noSwaps, noMulti = ci&4 != 0, ci&4 == 0
+		}
 		opts := ChanOpts{Disabled: dis, DisableSwaps: noSwaps, DisableMultiSwaps: noMulti, RobotSKI: rk.hexKey}
 		res := w.Peer.Init("tt", w.Admin.Creator, w.ConfigJSON("TT", opts))
 		if !res.OK() {
@@ -173,10 +182,12 @@ func genC11(c *Ctx) error {
 				args[i] = "x"
 			}
 			entries = append(entries, entry{m.Fn, args, m.fterm()})
+			// the same name with a capital first letter is no registered function
+			entries = append(entries, entry{strings.ToUpper(m.Fn[:1]) + m.Fn[1:], args, "ALIAS " + m.fterm()})
 		}
 		for _, e := range entries {
 			for _, id := range idents {
-				if !c.Thorough() && ci >= 16 && rng.Intn(3) != 0 {
+				if !c.Thorough() && ci >= 24 && rng.Intn(3) != 0 {
 					continue
 				}
 				before := stateSnapshot(ch)
@@ -184,6 +195,9 @@ func genC11(c *Ctx) error {
 				o := gateObs(r)
 				changed := !stateEqual(before, ch)
 				term := fmt.Sprintf("CInvoke %s %s %s %s %s", cfgTerm, id.Term, e.term, o, coqBool(changed))
+				if strings.HasPrefix(e.term, "ALIAS ") {
+					term = fmt.Sprintf("CAlias %s %s %s %s %s", cfgTerm, id.Term, strings.TrimPrefix(e.term, "ALIAS "), o, coqBool(changed))
+				}
 				c.Emit(term, map[string]interface{}{"kind": "invoke", "fn": e.fn, "identity": id.Name, "disabled": dis, "no_swaps": noSwaps, "no_multiswaps": noMulti, "robot_key": rk.n, "observed": o, "message": r.Message}, true)
 				c.Count("invoke_" + o)
 			}
@@ -191,7 +205,7 @@ func genC11(c *Ctx) error {
 		// task route: one correctly signed task per method
 		lockReq, _ := json.Marshal(&fpb.BalanceLockRequest{Id: "L" + strconv.Itoa(ci), Address: stranger.AddrString(), Token: "TT", Amount: "1", Reason: "r"})
 		for _, m := range gMethods {
-			if !c.Thorough() && ci >= 16 && rng.Intn(2) != 0 {
+			if !c.Thorough() && ci >= 24 && rng.Intn(2) != 0 {
 				continue
 			}
 			var margs []string
@@ -307,6 +321,14 @@ func genC11(c *Ctx) error {
 	for k, n := range near {
 		idn := NewECIdentity("near"+strconv.Itoa(k), n.ou)
 		initIdents = append(initIdents, gIdent{"OU=" + n.ou, idn, idn.Creator, fmt.Sprintf("(Creator true %d %d %s)", 20+k, 40+k, coqBool(n.admin))})
+	}
+	// certificates with no organisational unit, an empty one, and several: admin iff one of them is the admin unit
+	for k, n := range []struct {
+		ous   []string
+		admin bool
+	}{{nil, false}, {[]string{""}, false}, {[]string{"client", "admin"}, true}, {[]string{"admin", "client"}, true}, {[]string{"client", "peer"}, false}} {
+		idn := NewECIdentityOUs("ous"+strconv.Itoa(k), n.ous)
+		initIdents = append(initIdents, gIdent{fmt.Sprintf("OUs=%q", n.ous), idn, idn.Creator, fmt.Sprintf("(Creator true %d %d %s)", 30+k, 50+k, coqBool(n.admin))})
 	}
 	for _, id := range initIdents {
 		before := stateSnapshot(chU)
